@@ -65,8 +65,11 @@ C07Fails(r) ==
           \cup (IF r.obs.canon_receipts = 0 THEN {} ELSE {"Quiet"})
           \cup UNION {(IF r.obs.surfaced[j].ok THEN {} ELSE {"NotSurfaced:" \o r.obs.surfaced[j].route}) : j \in DOMAIN r.obs.surfaced}
 
-FailsOf(r) == CASE Prop = "C01" -> C01Fails(r) [] Prop = "C02" -> C02Fails(r)
-                [] Prop = "C03" -> C03Fails(r) [] OTHER -> C07Fails(r)
+(* every property: an earlier document of the same worker process, read again after other documents were served, gives the   *)
+(* very same observation (what is observed for this property does not depend on what the process did before)                  *)
+RepeatFails(r) == IF r.obs.repeat_ok THEN {} ELSE {"SameOnRepeat"}
+FailsOf(r) == RepeatFails(r) \cup (CASE Prop = "C01" -> C01Fails(r) [] Prop = "C02" -> C02Fails(r)
+                                     [] Prop = "C03" -> C03Fails(r) [] OTHER -> C07Fails(r))
 
 Judge(r) == LET f == FailsOf(r) IN IF f = {} THEN TRUE ELSE PrintT(ToJson([i |-> r.i, fails |-> f]))
 
